@@ -104,6 +104,22 @@ type Addr struct {
 	Idx   *Term      // AElem
 	Elem  types.Type // pointee type
 	Owner *Addr      // AElem: address of the field the slice header was loaded from
+	ERoot types.Type // AElem/ACell into a struct element: the element (cell) struct type
+	Sub   []int      // field path inside the element
+}
+
+// subLeaves returns the leaf range [start, start+n) of the field path inside root's layout.
+func subLeaves(root types.Type, path []int) (start, n int, ft types.Type) {
+	cur := root
+	start = 0
+	for _, i := range path {
+		st := cur.Underlying().(*types.Struct)
+		for j := 0; j < i; j++ {
+			start += len(layout(st.Field(j).Type()))
+		}
+		cur = st.Field(i).Type()
+	}
+	return start, len(layout(cur)), cur
 }
 
 type FnVal struct {
